@@ -60,9 +60,15 @@ def purge():
     importlib.invalidate_caches()
 
 
+DECOY = ('<protocol><enum name="DecoyKind" type="char"><value name="Zed">9</value></enum>'
+         '<struct name="DecoyOnly"><field name="a" type="char"/></struct></protocol>')
+
+
 class Tree:
-    def __init__(self, root, files):
+    def __init__(self, root, files, reuse=False):
         self.root = root
+        self.files = files
+        self.reuse = reuse
         self.xml = os.path.join(root, 'xml')
         self.out = os.path.join(root, 'src', 'eolib', 'protocol', '_generated')
         shutil.rmtree(self.xml, ignore_errors=True)
@@ -79,7 +85,29 @@ class Tree:
         buf = io.StringIO()
         try:
             with contextlib.redirect_stdout(buf):
-                limited(20, ProtocolCodeGenerator(Path(self.xml)).generate, Path(self.out))
+                g = ProtocolCodeGenerator(Path(self.xml))
+                if self.reuse:
+                    # one long-lived generator object: it first generates ANOTHER valid specification from the same directory (the root file
+                    # holds different types), the XML is then replaced by this tree's and generate() is called again into a cleaned output
+                    rootf = os.path.join(self.xml, 'protocol.xml')
+                    real = open(rootf, encoding='utf-8').read() if os.path.exists(rootf) else None
+                    others = {}
+                    for path in self.files:
+                        fp = os.path.join(self.xml, path, 'protocol.xml')
+                        if path and path != 'net':
+                            others[fp] = open(fp, encoding='utf-8').read()
+                            open(fp, 'w', encoding='utf-8').write('<protocol></protocol>')
+                    if real is not None:
+                        open(rootf, 'w', encoding='utf-8').write(DECOY)
+                        try:
+                            limited(20, g.generate, Path(self.out))
+                        except BaseException:
+                            pass
+                        open(rootf, 'w', encoding='utf-8').write(real)
+                    for fp, tx in others.items():
+                        open(fp, 'w', encoding='utf-8').write(tx)
+                    shutil.rmtree(self.out, ignore_errors=True)
+                limited(20, g.generate, Path(self.out))
             return True, ''
         except BaseException as e:
             # where the rejection was raised (innermost frame inside the generator): which rule fired
@@ -382,6 +410,23 @@ def do_immut(eolib, job):
         for step, seg in segs:
             if seg != s1[1]:
                 problems.append(f"the same instance serialized {step} on a long-lived writer gives {seg}, a fresh writer gave {s1[1]}")
+    # the observable state of the instance (repr incl. byte_size) is a snapshot: using the object - a packet's own write(), serializing,
+    # deserializing OTHER instances of the class from other bytes - does not change it
+    def state(o):
+        return [repr(x) for x in walk_objects(o)]
+    st0 = state(obj)
+    if hasattr(obj, 'write') and s1[0] == 'ok':
+        try:
+            from eolib.data.eo_writer import EoWriter as _W
+            w_ = _W()
+            w_.add_byte(1)
+            obj.write(w_)
+            if list(w_.to_bytearray())[1:] != s1[1]:
+                problems.append(f"packet.write() wrote {list(w_.to_bytearray())[1:]}, serialize wrote {s1[1]}")
+        except BaseException as e:
+            problems.append(f"packet.write() raised {type(e).__name__}: {e}")
+        if state(obj) != st0:
+            problems.append(f"packet.write() changed the instance: {st0} -> {state(obj)}")
     poke(obj, problems, 'constructed')
     s3 = ser_bytes(cls, obj)
     if s3 != s1:
@@ -395,6 +440,26 @@ def do_immut(eolib, job):
             out['deser_error'] = exc_class(e)
             return out
         d1 = ser_bytes(cls, o2)
+        # other instances of the same class (and of its parts) read from other byte strings, among them truncated ones
+        st2 = state(o2)
+        others = []
+        for cut in (0, 1, len(s1[1]) // 2, max(0, len(s1[1]) - 1)):
+            try:
+                others.append(limited(3, cls.deserialize, EoReader(bytes(s1[1][:cut]))))
+            except BaseException:
+                pass
+        for sub in walk_objects(o2)[1:3]:
+            try:
+                others.append(limited(3, type(sub).deserialize, EoReader(b'')))
+                others.append(limited(3, type(sub).deserialize, EoReader(bytes([7, 7, 7, 7, 7, 7, 7, 7, 7, 7, 7, 7]))))
+            except BaseException:
+                pass
+        if any(x is y for x in others for y in walk_objects(o2)):
+            problems.append("deserialize() handed out an object that is part of an earlier instance (shared instance)")
+        if state(o2) != st2:
+            problems.append(f"deserializing other instances changed an earlier one: {st2} -> {state(o2)}")
+        if state(obj) != st0:
+            problems.append(f"the constructed instance changed while others were deserialized / serialized: {st0} -> {state(obj)}")
         poke(o2, problems, 'deserialized')
         d2 = ser_bytes(cls, o2)
         if d2 != d1:
@@ -425,7 +490,11 @@ def do_enum(eolib, job):
 
         class Base(IntEnum, metaclass=ProtocolEnumMeta):
             pass
-        E = Base('E', job['functional'])
+        if 'functional_names' in job:
+            # auto-numbered functional API: Base('E', 'A B C', start=k)
+            E = Base('E', job['functional_names'], **({'start': job['start']} if job.get('start') is not None else {}))
+        else:
+            E = Base('E', job['functional'])
     from enum import IntEnum as _IntEnum
     from eolib.protocol.protocol_enum_meta import ProtocolEnumMeta as _Meta
 
@@ -495,14 +564,14 @@ def mutate(rng, data, n):
 
 
 def run_tree(root, t):
-    tree = Tree(root, t['files'])
+    tree = Tree(root, t['files'], reuse=bool(t.get('reuse')))
     ok, err = tree.generate()
     res = {'id': t['id'], 'accepted': ok, 'error': err, 'results': []}
     if not ok:
         res['raise_site'] = getattr(tree, 'raise_site', '')
+    if ok and t.get('want_sources'):
+        res['sources'] = sources(tree)
     if not ok or not t.get('jobs'):
-        if ok and t.get('want_sources'):
-            res['sources'] = sources(tree)
         return res
     purge()
     try:
